@@ -29,7 +29,7 @@ EXPECT = {
     "ofb-debug-prints-iv": ["C17"],
     "ecbcs2-decrypt-length-gate-only-empty": ["C13"],
     "cfb8-enc-shift-register-capped-at-16": ["C03", "C01"],
-    "cbc-xor-first-16-bytes-only": ["C02", "C01"],
+    "cbc-xor-first-16-bytes-only": ["C02"],
     "cbccs2-enc-swaps-whole-blocks-when-more-than-three": ["C05", "C14"],
     "ctr64be-nonce-chunk-to-be-bytes": ["C04"],
     "bufenc-short-path-includes-block-end": ["C08", "C09"],
